@@ -303,8 +303,11 @@ Definition spec_step (N : Z) (l : list elem) (o : op) (nid : Z) : sresult :=
     if i <? n then upd (sref (nth_error l (nat_of i))) (set_nth (nat_of i) v l) else SPanic
   | OAsSlices => same (OutSlices (map epe l) [])
   | OAsMutSlicesSet ws => upd (OutSlices (map epe l) []) (overwrite l ws)
-  | OIter script | OIterMut script =>
+  | OIter script | OIterMut script | ORefIntoIter script =>
     let '(rs, l', _) := spec_script l 0 (length l) script in upd (OutScript rs) l'
+  | OIterDefault script | OIterMutDefault script =>
+    (* an iterator over nothing: the window is empty, writes never hit *)
+    let '(rs, l', _) := spec_script l 0 0 script in upd (OutScript rs) l'
   | ORange sb eb script | ORangeMut sb eb script =>
     match spec_bounds n sb eb with
     | None => SPanic
@@ -318,7 +321,28 @@ Definition spec_step (N : Z) (l : list elem) (o : op) (nid : Z) : sresult :=
     SRet (mkSR (OutList (clones nid l)) l
                ((if 0 <? n then [EvAlloc] else []) ++ clone_evs nid l) (nid + n))
   | ODebug => SRet (mkSR OutUnit l (map EvFmt l) nid)
-  | ONew => SRet (mkSR OutUnit [] (drops l) nid)
+  (* {:?} of an iterator formats what it would still yield, front to back *)
+  | OIterDebug sb eb pre | OIterMutDebug sb eb pre =>
+    match spec_bounds n sb eb with
+    | None => SPanic
+    | Some (a, b) =>
+      let '(rs, l', (lo, hi)) := spec_script l (nat_of a) (nat_of b) pre in
+      SRet (mkSR (OutScript rs) l' (map EvFmt (sublist lo hi l')) nid)
+    end
+  | ODrainDebug sb eb pre =>
+    match spec_bounds n sb eb with
+    | None => SPanic
+    | Some (a, b) =>
+      let '(rs, _, (lo, hi)) := spec_script l (nat_of a) (nat_of b) (map plain_step pre) in
+      SRet (mkSR (OutScript rs) (firstn (nat_of a) l ++ skipn (nat_of b) l)
+                 (map EvFmt (sublist lo hi l) ++ drops (sublist lo hi l)) nid)
+    end
+  | OIntoIterDebug pre =>
+    let '(rs, _, (lo, hi)) := spec_script l 0 (length l) (map plain_step pre) in
+    SRet (mkSR (OutScript rs) []
+               (map EvFmt (sublist lo hi l) ++ drops (sublist lo hi l)) nid)
+  | ONew | ODefault => SRet (mkSR OutUnit [] (drops l) nid)
+  | OBoxed => SRet (mkSR OutUnit [] (EvAlloc :: drops l) nid)
   | OFromArray xs =>
     let kept := lastn (nat_of (Z.min N (zlen xs))) xs in
     SRet (mkSR OutUnit kept (drops (firstn (length xs - length kept) xs) ++ drops l) nid)
